@@ -83,6 +83,9 @@ def read_config_file(path, error_out=None):
                     except ValueError:
                         printerr(f"WARNING: expecting integer value for config variable '{name}'.")
                         continue
+                    if val < 0:
+                        printerr(f"WARNING: expecting non-negative value for config variable '{name}'.")
+                        continue
                 if prop.boolean:
                     if val == "true":
                         val = True
